@@ -1,6 +1,6 @@
 (** Proofs about the model of cayleypy/string_encoder.py (Codec.v):
     encode/decode round trip and correctness of the generated mask/shift/or routine. *)
-From Coq Require Import ZArith List Bool Arith Lia Zify ZifyClasses ZifyNat ZifyBool.
+From Coq Require Import ZArith List Bool Arith Lia Zify ZifyClasses ZifyNat ZifyBool Sorting.Permutation.
 From V Require Import Base W64 W64Proofs Perm PermProofs Codec CodecBits.
 Import ListNotations.
 Open Scope Z_scope.
@@ -147,6 +147,10 @@ Proof.
   - intros [[-> ->] ->]. reflexivity.
   - intros H. inversion H. auto.
 Qed.
+
+Lemma key_inj (a1 b1 a2 b2 : nat) (a3 b3 : Z) :
+  (a1, a2, a3) = (b1, b2, b3) -> a1 = b1 /\ a2 = b2 /\ a3 = b3.
+Proof. intros H. inversion H. auto. Qed.
 
 Lemma key_eqb_refl (a : key) : key_eqb a a = true.
 Proof. apply key_eqb_eq. reflexivity. Qed.
@@ -297,6 +301,38 @@ Proof.
   - apply stm_fold_fst in H as [(e' & [] & _)|H]. exact H.
 Qed.
 
+(* bonus: the keys of the table are pairwise distinct *)
+Lemma stm_add_map_fst k bit m :
+  map fst (stm_add k bit m) =
+    if existsb (fun k' => key_eqb k k') (map fst m) then map fst m else map fst m ++ [k].
+Proof.
+  induction m as [|[k' v] m IH]; cbn [stm_add map fst existsb app].
+  - reflexivity.
+  - destruct (key_eqb k k') eqn:E; cbn [orb map fst].
+    + reflexivity.
+    + rewrite IH. destruct (existsb _ (map fst m)); reflexivity.
+Qed.
+
+Lemma stm_add_NoDup k bit m : NoDup (map fst m) -> NoDup (map fst (stm_add k bit m)).
+Proof.
+  intros H. rewrite stm_add_map_fst.
+  destruct (existsb (fun k' => key_eqb k k') (map fst m)) eqn:E; [exact H|].
+  apply (Permutation.Permutation_NoDup (Permutation.Permutation_cons_append (map fst m) k)).
+  constructor; [|exact H]. intros Hin.
+  assert (existsb (fun k' => key_eqb k k') (map fst m) = true) as E'.
+  { apply existsb_exists. exists k. split; [exact Hin|apply key_eqb_refl]. }
+  congruence.
+Qed.
+
+Lemma shift_to_mask_NoDup w n p : NoDup (map fst (shift_to_mask w n p)).
+Proof.
+  rewrite shift_to_mask_fold.
+  assert (forall pairs m0, NoDup (map fst m0) -> NoDup (map fst (fold_left (stm_step w p) pairs m0))) as H.
+  { induction pairs as [|ij pairs IH]; intros m0 H0; cbn [fold_left]; [exact H0|].
+    apply IH. rewrite stm_step_eq. apply stm_add_NoDup. exact H0. }
+  apply H. constructor.
+Qed.
+
 (* ================= meaning of one generated statement ================= *)
 Lemma mwhz_ones m : mask_with_high_zeros m = Z.ones (64 - m).
 Proof. unfold mask_with_high_zeros, Z.ones. rewrite Z.sub_1_r. reflexivity. Qed.
@@ -351,7 +387,7 @@ Proof. rewrite eval_prog_orfold, orfold_length. apply repeat_length. Qed.
 Lemma bit_key_shift_range w p ij s d k :
   fst (bit_key w p ij) = (s, d, k) -> -64 < k < 64.
 Proof.
-  rewrite bit_key_eq. cbn [fst]. intros E. inversion E.
+  rewrite bit_key_eq. cbn [fst]. intros E. apply key_inj in E as (_ & _ & <-).
   pose proof (Nat.mod_upper_bound (sbit w p ij) 64 ltac:(lia)).
   pose proof (Nat.mod_upper_bound (ebit w ij) 64 ltac:(lia)). lia.
 Qed.
@@ -391,22 +427,22 @@ Proof.
     pose proof (Nat.mod_upper_bound (sbit w p (i, j)) 64 ltac:(lia)) as Hsm.
     pose proof (Nat.mod_upper_bound (ebit w (i, j)) 64 ltac:(lia)) as Hem.
     rewrite testbit_one_shifted in Hbit by lia. apply Z.eqb_eq in Hbit.
-    inversion Hkey as [[Ks Kc Kk]]. clear Hkey.
+    apply key_inj in Hkey as (Ks & Kc & Kk).
     assert (ebit w (i, j) = e) as He by (unfold e; lia).
     unfold ebit in He. cbn [fst snd] in He.
     assert (e / w = i)%nat as Ei by (rewrite <- He; apply div_mul_add; exact Hj).
     assert (e mod w = j)%nat as Ej by (rewrite <- He; apply mod_mul_add; exact Hj).
     assert (e < n * w)%nat as Hlt by (rewrite <- He; apply mul_add_lt; assumption).
     destruct (Nat.ltb_spec e (n * w)); [|lia].
-    rewrite Ei, Ej. fold (sbit w p (i, j)).
-    rewrite <- Hbit. exact H3.
+    rewrite Ei, Ej. change (nth i p 0%nat * w + j)%nat with (sbit w p (i, j)).
+    rewrite Ks, <- Hbit. exact H3.
   - intros H. destruct (Nat.ltb_spec e (n * w)) as [He|He]; [|discriminate].
     set (i := (e / w)%nat) in *. set (j := (e mod w)%nat) in *.
     assert (i < n)%nat as Hi by (apply div_lt_of_lt_mul; exact He).
     assert (j < w)%nat as Hj by (apply Nat.mod_upper_bound; lia).
     assert (ebit w (i, j) = e) as Ee.
     { unfold ebit, i, j. cbn [fst snd]. apply div_mod_recompose. lia. }
-    fold (sbit w p (i, j)) in H.
+    change (nth i p 0%nat * w + j)%nat with (sbit w p (i, j)) in H.
     set (sb := sbit w p (i, j)) in *.
     pose proof (Nat.mod_upper_bound sb 64 ltac:(lia)) as Hsm.
     set (k := b - Z.of_nat (sb mod 64)).
@@ -429,3 +465,174 @@ Proof.
       destruct (Z.leb_spec 0 (Z.of_nat (sb mod 64))); [|lia].
       destruct (Z.ltb_spec (Z.of_nat (sb mod 64)) 64); [|lia]. reflexivity.
 Qed.
+
+(* ================= results of the routine are int64 values ================= *)
+Definition stmt_ok (st : stmt) : Prop :=
+  in64 (mask st) /\
+  match sh st with
+  | NoShift => True
+  | Shl _ => True
+  | Sar k None => 0 <= k
+  | Sar k (Some hz) => 0 <= k /\ in64 hz
+  end.
+
+Lemma stmt_term_in64 x st : Forall in64 x -> stmt_ok st -> in64 (stmt_term x st).
+Proof.
+  intros Hx [Hm Hs]. unfold stmt_term.
+  assert (in64 (w_and (nth (src st) x 0) (mask st))) as Hv.
+  { unfold w_and. apply land_in64; [apply Forall_in64_nth; exact Hx|exact Hm]. }
+  destruct (sh st) as [|k|k [hz|]]; cbn [eval_shift].
+  - exact Hv.
+  - unfold w_shl. apply wrap_in64.
+  - destruct Hs as [Hk Hhz]. unfold w_and at 1. apply land_in64; [|exact Hhz].
+    unfold w_sar. apply shiftr_in64; assumption.
+  - unfold w_sar. apply shiftr_in64; assumption.
+Qed.
+
+(* side condition on the program: masks are int64 values and right shifts are by k >= 0 *)
+Lemma eval_prog_in64 L prog x :
+  Forall stmt_ok prog -> Forall in64 x -> Forall in64 (eval_prog L prog x).
+Proof.
+  intros Hp Hx. rewrite eval_prog_orfold. apply orfold_in64.
+  - intros st Hst. apply stmt_term_in64; [exact Hx|]. rewrite Forall_forall in Hp. apply Hp. exact Hst.
+  - apply Forall_repeat. apply in64_0.
+Qed.
+
+Lemma ones_in64 a : 0 <= a <= 63 -> in64 (Z.ones a).
+Proof.
+  intros Ha. rewrite Z.ones_equiv.
+  pose proof (Z.pow_le_mono_r 2 a 63 ltac:(lia) ltac:(lia)) as H1.
+  pose proof (Z.pow_pos_nonneg 2 a ltac:(lia) ltac:(lia)) as H2.
+  change (2 ^ 63) with 9223372036854775808 in H1.
+  unfold in64, two63. lia.
+Qed.
+
+Lemma emit_stmt_ok w n p : Forall stmt_ok (emit w n p).
+Proof.
+  apply Forall_forall. intros st Hst. unfold emit in Hst.
+  apply in_map_iff in Hst as (ent & <- & Hent).
+  destruct (stm_entries w n p ent Hent) as (HM & ij0 & _ & Hk0).
+  destruct ent as [[[s d] k] M]. cbn [fst snd] in *.
+  apply bit_key_shift_range in Hk0.
+  unfold stmt_ok. cbn [stmt_of mask sh]. split; [exact HM|].
+  destruct (Z.ltb_spec 0 k); [exact I|].
+  destruct (Z.ltb_spec k 0); [|exact I].
+  destruct (Z.ltb_spec M 0).
+  - split; [lia|]. rewrite mwhz_ones. apply ones_in64. lia.
+  - lia.
+Qed.
+
+Lemma emit_in64 L w n p x : Forall in64 x -> Forall in64 (eval_prog L (emit w n p) x).
+Proof. apply eval_prog_in64, emit_stmt_ok. Qed.
+
+(* ================= on encoded states the routine is the library's action ================= *)
+Lemma nth_lt_of_Forall (p : list nat) n i :
+  Forall (fun v => (v < n)%nat) p -> (0 < n)%nat -> (nth i p 0%nat < n)%nat.
+Proof.
+  intros H Hn. destruct (Nat.lt_ge_cases i (length p)) as [Hi|Hi].
+  - rewrite Forall_forall in H. apply H. apply nth_In. exact Hi.
+  - rewrite nth_overflow by exact Hi. exact Hn.
+Qed.
+
+Theorem emit_action w n p s :
+  (1 <= w <= 64)%nat -> length p = n -> Forall (fun v => (v < n)%nat) p -> length s = n ->
+  Forall (fun x => 0 <= x < 2 ^ Z.of_nat w /\ x < two63) s ->
+  eval_prog (encoded_length w n) (emit w n p) (encode w n s) = encode w n (apply_perm 0 p s).
+Proof.
+  intros Hw Hlp Hp Hls Hs. apply nth_ext' with (d := 0).
+  - rewrite eval_prog_length, encode_length. reflexivity.
+  - intros c Hc. rewrite eval_prog_length in Hc.
+    apply in64_bits_eq.
+    + apply Forall_in64_nth, emit_in64, encode_in64.
+    + apply Forall_in64_nth, encode_in64.
+    + intros b Hb.
+      rewrite emit_correct; try assumption; [|apply encode_length|apply encode_in64].
+      rewrite (encode_testbit_gen w n (apply_perm 0 p s)) by assumption.
+      cbv zeta. set (e := (c * 64 + Z.to_nat b)%nat).
+      destruct (Nat.ltb_spec e (n * w)) as [He|He]; [|reflexivity].
+      set (i := (e / w)%nat). set (j := (e mod w)%nat).
+      assert (i < n)%nat as Hi by (apply div_lt_of_lt_mul; exact He).
+      assert (j < w)%nat as Hj by (apply Nat.mod_upper_bound; lia).
+      assert (nth i p 0%nat < n)%nat as Hpi by (apply nth_lt_of_Forall; [exact Hp|lia]).
+      set (sb := (nth i p 0%nat * w + j)%nat).
+      assert (sb < n * w)%nat as Hsb by (apply mul_add_lt; assumption).
+      rewrite encode_testbit_gen.
+      2:{ unfold encoded_length. lia. }
+      2:{ lia. }
+      cbv zeta. rewrite Nat2Z.id.
+      replace (sb / 64 * 64 + sb mod 64)%nat with sb by lia.
+      destruct (Nat.ltb_spec sb (n * w)); [|lia].
+      unfold sb. rewrite div_mul_add, mod_mul_add by exact Hj.
+      rewrite nth_apply_perm by lia. reflexivity.
+Qed.
+
+Corollary decode_emit_encode w n p s :
+  (1 <= w <= 64)%nat -> length p = n -> Forall (fun v => (v < n)%nat) p -> length s = n ->
+  Forall (fun x => 0 <= x < 2 ^ Z.of_nat w /\ x < two63) s ->
+  decode w n (eval_prog (encoded_length w n) (emit w n p) (encode w n s)) = apply_perm 0 p s.
+Proof.
+  intros Hw Hlp Hp Hls Hs. rewrite emit_action by assumption.
+  apply decode_encode; [exact Hw|rewrite apply_perm_length; exact Hlp|].
+  apply Forall_forall. intros v Hv. unfold apply_perm in Hv.
+  apply in_map_iff in Hv as (i & <- & Hi).
+  rewrite Forall_forall in Hs. apply Hs. apply nth_In.
+  rewrite Forall_forall in Hp. specialize (Hp i Hi). lia.
+Qed.
+
+(* ================= 1-D variant ================= *)
+Lemma eval_prog1_single prog x a :
+  Forall (fun st => src st = 0%nat /\ dst st = 0%nat) prog ->
+  fold_left (eval_stmt [x]) prog [a] =
+    [fold_left (fun acc st => w_or acc (eval_shift (w_and x (mask st)) (sh st))) prog a].
+Proof.
+  intros H. revert a. induction H as [|st prog [Hs Hd] _ IH]; intros a; cbn [fold_left].
+  - reflexivity.
+  - unfold eval_stmt at 2. rewrite Hs, Hd. cbn [nth upd]. apply IH.
+Qed.
+
+Lemma emit_single_word w n p :
+  encoded_length w n = 1%nat -> Forall (fun v => (v < n)%nat) p ->
+  Forall (fun st => src st = 0%nat /\ dst st = 0%nat) (emit w n p).
+Proof.
+  intros HL Hp. apply Forall_forall. intros st Hst. unfold emit in Hst.
+  apply in_map_iff in Hst as (ent & <- & Hent).
+  destruct (stm_entries w n p ent Hent) as (_ & [i j] & Hij & Hk).
+  apply in_bit_pairs in Hij as [Hi Hj].
+  destruct ent as [[[s d] k] M]. cbn [fst snd] in *.
+  rewrite stmt_of_src, stmt_of_dst.
+  rewrite bit_key_eq in Hk. cbn [fst] in Hk. apply key_inj in Hk as (Ks & Kd & _).
+  assert (nth i p 0%nat < n)%nat as Hpi by (apply nth_lt_of_Forall; [exact Hp|lia]).
+  assert (sbit w p (i, j) < n * w)%nat by (unfold sbit; cbn [fst snd]; apply mul_add_lt; assumption).
+  assert (ebit w (i, j) < n * w)%nat by (unfold ebit; cbn [fst snd]; apply mul_add_lt; assumption).
+  unfold encoded_length in HL. lia.
+Qed.
+
+(* The range condition on p (as in emit_correct) is needed: without it a statement may read
+   a source word other than word 0, which the 1-D routine silently replaces by x
+   (see eval_prog1d_needs_range below). *)
+Theorem eval_prog1d_eq w n p x :
+  encoded_length w n = 1%nat -> Forall (fun v => (v < n)%nat) p -> in64 x ->
+  eval_prog1d (emit w n p) x = nth 0 (eval_prog 1 (emit w n p) [x]) 0.
+Proof.
+  intros HL Hp _. unfold eval_prog, eval_prog1d. cbn [repeat].
+  rewrite eval_prog1_single by (apply emit_single_word; assumption).
+  reflexivity.
+Qed.
+
+Example eval_prog1d_needs_range :
+  let w := 1%nat in let n := 2%nat in let p := [100%nat; 0%nat] in let x := 2 ^ 36 in
+  encoded_length w n = 1%nat /\ in64 x /\
+  eval_prog1d (emit w n p) x <> nth 0 (eval_prog 1 (emit w n p) [x]) 0.
+Proof.
+  cbv zeta. split; [reflexivity|]. split.
+  - unfold in64, two63. change (2 ^ 36) with 68719476736. lia.
+  - vm_compute. discriminate.
+Qed.
+
+Print Assumptions encode_testbit.
+Print Assumptions decode_encode.
+Print Assumptions emit_correct.
+Print Assumptions emit_action.
+Print Assumptions eval_prog1d_eq.
+Print Assumptions eval_prog_in64.
+Print Assumptions decode_emit_encode.
